@@ -22,6 +22,54 @@ CLAIMED = {
             "also compared with the implementation model (drift).",
             "TLC 1.8; harness/drv_c07.py projection of list_of_points / stationary list / stored weights; dyadic weights.",
             "6.7"),
+    "C01": ("TLC model checking of spec/Pep.tla (dual index walk over all send sequences, deviation switches) + real solves "
+            "of the exported programs + TLC trace validation of the certificate identity in fixed point (SolveTrace.tla)",
+            "TLC enumerates model shapes and solve options, each is built and solved with the real library, and TLC "
+            "recomputes 'objective - tau = sum(multiplier x constraint) - <residual, Gram> - sum <LMI multiplier, matrix>' "
+            "monomial by monomial from the multipliers the objects expose, with signs, PSD sensors and the returned constant.",
+            "TLC 1.8; cvxpy+CLARABEL tolerance 3e-5 abs+rel plus exact quantisation bound; numpy eigvalsh as sensor.",
+            "6.1"),
+    "C02": ("real solves of the programs exported by spec/Pep.tla + TLC trace validation of the primal instance in fixed "
+            "point (SolveTrace.tla: Gram reproduction, derived values, feasibility of every sent row, min-metric, gap)",
+            "Every value the user can obtain after a solve is recomputed by TLC from the leaf values with the object's exact "
+            "normal form; every sent row is evaluated by TLC at the instance.",
+            "TLC 1.8; cvxpy+CLARABEL tolerance; numpy PSD projection and eigvalsh as sensors.",
+            "6.2"),
+    "C04": ("TLC model checking of spec/ClassHist.tla (all declaration histories, order-independence of the documented set) "
+            "+ replay on the 24 real classes + TLC trace validation against spec/Classes.tla (documented conditions)",
+            "TLC enumerates every declaration history (<=3 quick, <=4 thorough) of each of the 24 classes at 2-3 parameter "
+            "points; each is replayed on the real class and the generated constraints and LMIs are compared by TLC, as "
+            "normalised exact rational forms, with the transcription of the documentation; an end-to-end clause solves one "
+            "model per class in every declaration order.",
+            "TLC 1.8; transcription of the class documentation in Classes.tla (cross-checked by C03 against real members).",
+            "6.4"),
+    "C05": ("TLC model checking of spec/Pep.tla (sent list and native layout) + real solves + TLC trace validation that the "
+            "bag sent equals the declared sources and that every natively probed cvxpy row denotes its symbolic expression",
+            "The native cvxpy problem is probed independently of PEPit's translation code (variables set to zero / basis "
+            "elements) and compared row by row, sense by sense, by TLC with the normal forms read from the DSL objects.",
+            "TLC 1.8; cvxpy expression evaluation used for probing; MOSEK-side encoding is covered by C11 on a stand-in.",
+            "6.5"),
+    "C13": ("TLC model checking of spec/Pep.tla (epochs, caches, accumulation switches) + real solve/edit/evaluate sequences "
+            "+ TLC trace validation across consecutive solves (SolveTrace.tla)",
+            "Sequences of solves interleaved with edits and evaluations are enumerated by TLC, run on the real library, and "
+            "TLC compares what is sent at consecutive solves, recomputes every held value from the latest leaf values and "
+            "re-checks the certificate of every solve.",
+            "TLC 1.8; cvxpy+CLARABEL tolerance.",
+            "6.13"),
+    "C14": ("real heuristic solves of programs exported by spec/Pep.tla under recording wrappers + TLC trace validation of the "
+            "phase events and of the certificate/primal clauses after the heuristic (SolveTrace.tla)",
+            "Recording subclasses of the real wrappers (installed through PEPit's own registry) log every internal solve; "
+            "TLC checks that multipliers are those of the first problem, the bound is its certificate constant, the primal "
+            "value stays within tol, the final instance satisfies every row, and the trace does not increase.",
+            "TLC 1.8; cvxpy+CLARABEL tolerance; logdet runs use regularisation 1e-1 (CLARABEL fails at 1e-3: inconclusive).",
+            "6.14"),
+    "C17": ("TLC model checking of spec/ClassHist.tla + replay and real solves + TLC trace validation of tables, names and "
+            "multipliers against spec/Classes.tla (TablesTrace.tla)",
+            "For every class, history and naming variant the tables of constraints and of duals are projected and TLC "
+            "checks shape, labels, that entry (i,j) holds the documented condition of samples (i,j), that its dual is that "
+            "object's multiplier, zeros elsewhere, and that names identify function, condition and pair.",
+            "TLC 1.8; pandas DataFrame projection in harness/classes_common.py.",
+            "6.17"),
 }
 
 NOT_YET = {}
